@@ -72,6 +72,8 @@ def check(pid, tier, regen=False):
                 continue
             R.add_violation({"property": pid, "clause": clause, "tid": tr["tid"], "step": k, "threads": tr["nthreads"],
                              "event": describe(tr["ev"][k - 1]), "vars": tr["vars"],
+                             "alone": tr["solo"][k - 1] if k <= len(tr.get("solo", [])) else None,
+                             "anntags": tr["ev"][k - 1].get("anntags"),
                              "history": [describe(e) for e in tr["ev"][:k]]})
         else:
             R.add_violation({"property": pid, "clause": clause, "tid": tr["tid"], "threads": tr["nthreads"],
